@@ -285,7 +285,7 @@ def _key(obj):
         return id(obj)
 
 
-PURE_OK = {abs, min, max, repr, ord, chr, round, divmod, sorted, reversed}
+PURE_OK = {abs, min, max, repr, ord, chr, round, divmod, sorted}
 
 
 def call_specop(eng, op, args, kwargs, st):
@@ -611,6 +611,11 @@ def n_filterfalse(eng, args, kwargs, st):
                     nxt.append((acc, s3) if flag else (acc + [item], s3))
         outs = nxt
     return [(acc, s) if isinstance(acc, Raise) else (s.alloc(HList(acc)), s) for acc, s in outs]
+
+
+def n_reversed(eng, args, kwargs, st):
+    items = eng.iter_concrete(args[0], st)
+    return ok(st.alloc(HList(list(reversed(items)))), st)
 
 
 def n_enumerate(eng, args, kwargs, st):
@@ -997,7 +1002,10 @@ def _ast_children(v, st):
                 elif isinstance(y, Opq):
                     raise Unsupported("opaque member in an ast list field")
         elif isinstance(x, Opq):
-            raise Unsupported("opaque ast field %s" % f)
+            if x.cls == "ast.expr":
+                out.append(x)  # an opaque EXPRESSION is a leaf of the walk: expressions contain no statements or definitions (its own sub-expressions stay unknown)
+            else:
+                raise Unsupported("opaque ast field %s" % f)
     return out
 
 
@@ -1013,6 +1021,8 @@ def n_ast_walk(eng, args, kwargs, st):
     while todo:
         n = todo.pop(0)
         out.append(n)
+        if isinstance(n, Opq):
+            continue
         todo.extend(_ast_children(n, st))
         if len(out) > 400:
             raise Unsupported("ast.walk over more than 400 nodes")
@@ -1133,7 +1143,7 @@ def n_identity(eng, args, kwargs, st):
 
 
 NATIVE = {
-    ast.parse: n_ast_parse, ast.fix_missing_locations: n_fix_missing_locations, itertools.filterfalse: n_filterfalse, copy.deepcopy: n_deepcopy, ast.walk: n_ast_walk, ast.iter_child_nodes: n_iter_child_nodes,
+    ast.parse: n_ast_parse, ast.fix_missing_locations: n_fix_missing_locations, reversed: n_reversed, itertools.filterfalse: n_filterfalse, copy.deepcopy: n_deepcopy, ast.walk: n_ast_walk, ast.iter_child_nodes: n_iter_child_nodes,
     len: n_len, isinstance: n_isinstance, type: n_type, int: n_int, float: n_float, bool: n_bool, str: n_str,
     complex: n_complex, sum: n_sum, any: n_any, all: n_all, map: n_map, filter: n_filter,
     enumerate: n_enumerate, range: n_range, next: n_next, iter: n_iter, tuple: n_tuple, list: n_list,
